@@ -73,7 +73,10 @@ def alphabet(k, pools):
     other = ['{a0: a0/2}', '{a0: sqrt(Abs(a0))}', 'nan']
     if k > 1:
         other.append('{a1: exp(a1)}')
-    return dup + other
+    # every pure permutation / renaming map the simplifier can emit (3-cycles etc. are NOT self-inverse)
+    import re
+    perms = [t for t in pools['templates'].get(k, []) if re.fullmatch(r'\{(a\d: a\d(, )?)+\}', t) and t not in dup]
+    return dup + other + perms
 
 
 def draw_run(seed, i, pools, nfiles):
@@ -188,9 +191,9 @@ def main(tier, seed, budget):
                         pending_min.append((s, a, r))
             # ---- exhaustive cancellation chains (schedule-free part) ----
             ej = []
-            for k in (1, 2) if quick else (1, 2, 3):
+            for k in (1, 2, 3) if quick else (1, 2, 3, 4):
                 alpha = alphabet(k, pools)
-                maxlen = 4 if (k < 3 and not quick) or k == 1 else 3
+                maxlen = {1: 4, 2: 3 if quick else 4, 3: 2 if quick else 3, 4: 2}[k]
                 allch = [list(c) for L in range(1, maxlen + 1) for c in itertools.product(alpha, repeat=L)]
                 stats['exhaustive_chains'] += len(allch)
                 for off in range(0, len(allch), 1500):
